@@ -594,3 +594,27 @@ def run(ctx):
                   "model": RL.coq_show(ctx, "corr", "run_pcase tb", cterms[i], header=HEADER)}, concrete=False)
     if not built:
         ctx.obligations_failed("executed the property statement against validate.prune on all generated trees in both modes")
+
+
+def replay(ctx, data):
+    """./check C15 --replay file: run the stored tree again (statement search, and the model if small)."""
+    r = data.get("replay", {})
+    case = r.get("case", r)
+    t, strict = case.get("tree"), case.get("strict")
+    if t is None:
+        print(json.dumps(data, indent=1)[:2000])
+        return
+    tb = Tables()
+    o = run_impl(t, bool(strict))
+    ctx.case(("replay", strict), True)
+    print("observed:", json.dumps({k: o.get(k) for k in ("exc", "returned", "store_after", "second", "invalid_left")})[:1500])
+    for key, what in statement_violations(tb, t, bool(strict), o):
+        print("statement violated:", key, what)
+        ctx.fail(f"C15:{key}:{'strict' if strict else 'lenient'}", what,
+                 {"kind": "impl-vs-statement", "tree": t, "strict": strict, "observed": {k: o.get(k) for k in ("exc", "returned", "after")}})
+    if size(t) <= MAX_COQ_NODES:
+        bad, errors = RL.coq_compare(ctx, "replay", "run_pcase tb", [coq_case(t, bool(strict), o["store_before"])], [coq_want(o)],
+                                     header=HEADER, eqb="pobs_eqb")
+        print("model agrees with implementation:", not bad and not errors)
+        if bad or errors:
+            ctx.fail("corr:prune", "model and implementation disagree on prune", {"kind": "broken-correspondence", "case": case}, concrete=False)
